@@ -637,8 +637,8 @@ func (g *c33Gen) pickLabel(line int, varint bool) (string, bool) {
 		if g.v < backBranchEnabledVersion && p <= line {
 			continue
 		}
-		if g.v < 2 && p >= g.nLines {
-			continue
+		if g.v < 2 && p >= g.nLines && !g.r.Chance(1, 4) {
+			continue // v0/v1 may not branch to the end of the program: the assembler must reject it; tried now and then
 		}
 		if varint && p == line {
 			continue // "branch to start of same instruction" cannot be encoded
